@@ -24,9 +24,9 @@ def detect_variant() -> Dict[str, bool]:
   cfg = sampling.RunConfig(nw=1, groups=[1], n=1, ops=['done'], evo=True, policy='rr', seed=0)
   r = sampling.run_scheduled(cfg)
   names = [e['e'] for e in r.events]
-  need = ['goc_test', 'goc_store', 'setup_test', 'alg_setup', 'next_active', 'next_lookup', 'next_status',
+  need = ['goc_test', 'goc_store', 'setup_test', 'alg_setup_begin', 'alg_setup', 'next_active', 'next_lookup', 'next_status',
           'want_study', 'acquire_study', 'check_max', 'want_alg', 'acquire_alg', 'propose', 'alloc',
-          'append_trial', 'release_study', 'user_op', 'add_measurement', 'done_test', 'done_set',
+          'append_trial', 'release_study', 'sample_reward', 'evo_fitness', 'user_op', 'add_measurement', 'done_test', 'done_set',
           'evo_population', 'release_alg', 'alg_feedback', 'fed', 'complete_counts', 'best_read', 'complete',
           'finish']
   missing = [n for n in need if n not in names]
